@@ -28,7 +28,11 @@ def is_guard_fn(fx, g):
         return False
     if not (g.raw.get("ret_ty") or "").startswith("std::result::Result<(), "):
         return False
-    return any(t2.get("resolved") == g.name for _, t2 in g.calls())
+    # recursive: directly, or from a closure / function item handed to an iterator adaptor (visible in the view, where such adaptors are loops)
+    if any(t2.get("resolved") == g.name for _, t2 in g.calls()):
+        return True
+    gv = fx.view(g.name)
+    return gv is not None and any(t2.get("resolved") == g.name for _, t2 in gv.calls())
 
 
 def locate_guard(fx, fn, pidx, depth=0, chain=()):
